@@ -81,6 +81,8 @@ def _run_shard(args):
             dinput.append("C %s %s %s %s %s" % (c["id"], c["zone"], c["prev"], c["go"] if c["go"][0] in "FE" else "E", c["fields"]))
         elif t[0] == "HANG":
             rec["hang"] = t[1:]
+        elif t[0] == "PANIC":
+            rec["panic_input"] = t[1:]
         elif t[0] in ("D", "N"):
             rec["other"].append(t)
             if t[0] == "D":
@@ -185,7 +187,7 @@ def harness_problems(recs):
             out.append({"kind": "hang", "case": r["hang"], "why": ["NextFireTime did not return within 10 s"]})
         elif r["rc"] != 0:
             last = r["cases"][-1] if r["cases"] else None
-            out.append({"kind": "crash", "rc": r["rc"], "stderr": r["stderr"][-1500:],
+            out.append({"kind": "crash", "rc": r["rc"], "stderr": r["stderr"][-1500:], "crashing_input": r.get("panic_input"),
                         "last_completed_case": case_view(last) if last else None,
                         "why": ["the harness process died while evaluating NextFireTime (panic / fatal error)"]})
         for t in r["other"]:
